@@ -1865,18 +1865,18 @@ def run(ctx, replay=None):
         elif kind == "reskernel":
             run_gp_resource_kernel(ctx, [replay["spec"]])
         return
-    n_head = ctx.n(250, 2500)
+    n_head = ctx.n(200, 2500)
     specs = [gen_head_spec(rng, head) for head in ("ei", "lcb", "eipu", "cei") for _ in range(n_head)]
     specs += [gen_head_spec(rng, head, tail=True) for head in ("ei", "eipu", "cei") for _ in range(ctx.n(60, 800))]
     run_heads(ctx, specs)
     run_chol(ctx, [gen_chol_spec(rng) for _ in range(ctx.n(200, 2000))])
     run_jitter_forced(ctx, [gen_jitter_spec(rng) for _ in range(ctx.n(100, 1500))])
     run_gp_jitter(ctx, [gen_gp_jitter_spec(rng) for _ in range(ctx.n(6, 40))])
-    run_gp_acq(ctx, [gen_gp_spec(rng) for _ in range(ctx.n(120, 1200))] +
-               [gen_gp_tail_spec(rng) for _ in range(ctx.n(40, 400))])
+    run_gp_acq(ctx, [gen_gp_spec(rng) for _ in range(ctx.n(80, 1200))] +
+               [gen_gp_tail_spec(rng) for _ in range(ctx.n(25, 400))])
     run_hypertune(ctx, [gen_hypertune_spec(rng, k) for k in range(ctx.n(60, 900))])
     run_indep(ctx, [gen_indep_spec(rng, k) for k in range(ctx.n(30, 500))])
     run_gp_resource_kernel(ctx, [gen_reskernel_spec(rng, k) for k in range(ctx.n(32, 500))])
     run_linear_explicit(ctx, [gen_linear_spec(rng) for _ in range(ctx.n(150, 2000))])
-    run_fit_objective(ctx, [gen_fit_spec(rng, k) for k in range(ctx.n(88, 600))])
-    run_fit_multifidelity(ctx, [gen_fit_mf_spec(rng, k) for k in range(ctx.n(16, 200))])
+    run_fit_objective(ctx, [gen_fit_spec(rng, k) for k in range(ctx.n(64, 600))])
+    run_fit_multifidelity(ctx, [gen_fit_mf_spec(rng, k) for k in range(ctx.n(10, 200))])
